@@ -6,6 +6,7 @@
 set -u
 prop=$1; id=$2; src=$3; pkg=$4; run=$5; ld=${6:--checklinkname=0}
 export GOFLAGS=-mod=mod GOPROXY=off GOSUMDB=off GOTOOLCHAIN=local
+if [ -n "$(git -C /repo status --porcelain)" ]; then echo "refusing: /repo has uncommitted changes (commit hook edits first)"; exit 2; fi
 out=/verif/seeded/$id; mkdir -p $out
 cp $src/patch.diff $out/patch.diff; cp $src/demo_test.go $out/demo_test.go; cp $src/notes.txt $out/notes.txt 2>/dev/null
 wt=/tmp/seedwt_$id
